@@ -8,6 +8,7 @@ import (
 	"math/rand"
 
 	"github.com/unixpickle/model3d/model2d"
+	"verif/vlib"
 )
 
 type node2 struct {
@@ -19,6 +20,7 @@ type node2 struct {
 	kids   []*node2
 	costly bool
 	inside []C2
+	extra  func(c *vlib.Case, q *querier)
 }
 
 func (n *node2) subject() *subject {
@@ -31,6 +33,7 @@ func (n *node2) subject() *subject {
 		s.inside = append(s.inside, p2(p))
 	}
 	s.costly = n.costly
+	s.extra = n.extra
 	return s
 }
 
@@ -178,7 +181,31 @@ func joinOptNode2(kids []*node2) *node2 {
 	return &node2{api: "model2d.JoinedSolid.Optimize", s: model2d.JoinedSolid(solidsOf2(kids)).Optimize(), def: orDef2(kids), hints: kidsHints2(kids), desc: "JoinedOptimize", kids: kids, costly: anyCostly2(kids)}
 }
 func muxNode2(kids []*node2) *node2 {
-	return &node2{api: "model2d.SolidMux", s: model2d.NewSolidMux(solidsOf2(kids)), def: orDef2(kids), hints: kidsHints2(kids), desc: "SolidMux", kids: kids, costly: anyCostly2(kids)}
+	mux := model2d.NewSolidMux(solidsOf2(kids))
+	n := &node2{api: "model2d.SolidMux", s: mux, def: orDef2(kids), hints: kidsHints2(kids), desc: "SolidMux", kids: kids, costly: anyCostly2(kids)}
+	// the per-solid answers must not be cut by the BVH boxes either
+	n.extra = func(c *vlib.Case, q *querier) {
+		for i, p := range q.in {
+			if i >= 64 {
+				break
+			}
+			all := mux.AllContains(p.c2())
+			cnt := 0
+			for k, kid := range kids {
+				if kid.s.Contains(p.c2()) {
+					cnt++
+					c.Count("mux.per_solid_checks", 1)
+					if !all[k] {
+						c.Violation("model2d.SolidMux.AllContains/member-cut", "a member solid contains p but AllContains reports false for it", q.witness(p, map[string]interface{}{"member": k}))
+					}
+				}
+			}
+			if got := mux.IterContains(p.c2(), nil); got < cnt {
+				c.Violation("model2d.SolidMux.IterContains/member-cut", fmt.Sprintf("IterContains counts %d members, %d contain p", got, cnt), q.witness(p, nil))
+			}
+		}
+	}
+	return n
 }
 func intersectNode2(kids []*node2) *node2 {
 	return &node2{api: "model2d.IntersectedSolid", s: model2d.IntersectedSolid(solidsOf2(kids)),
@@ -324,12 +351,7 @@ func transformNode2(rng *rand.Rand, k *node2, x xform2) *node2 {
 		cands = append(cands, model2d.XY(kmn.X+(kmx.X-kmn.X)*rng.Float64(), kmn.Y+(kmx.Y-kmn.Y)*rng.Float64()))
 	}
 	for _, q := range cands {
-		ok := k.s.Contains(q)
-		for _, d := range []C2{{X: hq}, {X: -hq}, {Y: hq}, {Y: -hq}} {
-			if ok && !k.s.Contains(q.Add(d)) {
-				ok = false
-			}
-		}
+		ok := stable2(k.s.Contains, q, hq)
 		if ok && len(n.inside) < 24 {
 			n.inside = append(n.inside, x.t.Apply(q))
 		}
